@@ -118,3 +118,31 @@ void harness_negotiation(void)
 	free(WS.extension_compression.response);
 	WITNESS_END();
 }
+
+/* C19 / C06: the offer parser on arbitrary bytes after the extension name: memory safety and the response bound */
+#ifndef OFFER_TAIL
+#define OFFER_TAIL 8
+#endif
+void harness_offer_bytes(void)
+{
+	CONN.parser.data = &WS; CONN.compression_level = 2;
+	__CPROVER_assume(websocket_init(&WS, &CONN, true, on_err, "jet") == 0);
+	static const char name[] = "permessage-deflate;";
+	size_t tail = nd_size(); __CPROVER_assume(tail <= OFFER_TAIL);
+	size_t total = sizeof(name) - 1 + tail;
+	char *offer = malloc(total);                        /* header value: not NUL-terminated, exact size */
+	__CPROVER_assume(offer != 0);
+	for (size_t i = 0; i < sizeof(name) - 1; i++) offer[i] = name[i];
+	for (size_t i = 0; i < OFFER_TAIL; i++) if (i < tail) offer[sizeof(name) - 1 + i] = (char)nd_u8();
+	check_websocket_extensions(&WS, offer, total);
+	if (WS.extension_compression.accepted) {
+		size_t l = 0; while (l < 129 && WS.extension_compression.response[l]) l++;
+		CHECK(l <= 128, "C19.response_fits_its_buffer");
+		CHECK(WS.extension_compression.client_max_window_bits >= 8 && WS.extension_compression.client_max_window_bits <= 15 &&
+		      WS.extension_compression.server_max_window_bits >= 8 && WS.extension_compression.server_max_window_bits <= 15, "C19.window_bits_within_8_to_15");
+		REACH("accepted");
+	}
+	free(WS.extension_compression.response);
+	free(offer);
+	WITNESS_END();
+}
